@@ -5,7 +5,8 @@
          `base: <parent>` recursion of operator templates is modelled in Replace.v, update_op).
    Spec: `denote` = the flattened model a template stands for (node path / operator / variable |-> kind and
          value, the equations, the edges with their templates and attributes); round trip must not change it.
-   Definitions only; proofs in YamlProofs.v.  Numbers are dyadic rationals k/8, represented by k : Z. *)
+   Definitions only; proofs in YamlProofs.v.  Numbers (dyadic floats of any magnitude) are represented by an injective
+   integer code (harness: zcode); the model only compares them. *)
 From Coq Require Import List Ascii Bool Arith ZArith.
 From PV Require Import Replace.
 Import ListNotations.
@@ -29,7 +30,7 @@ Fixpoint nodupb (l : list str) : bool :=
 
 (* ---------- the Python-side objects ---------- *)
 Inductive vtype := VConst | VState | VIn | VOut.
-Definition vspec := (vtype * Z)%type.                     (* "output(0.5)" = (VOut, 4); 2.0 = (VConst, 16) *)
+Definition vspec := (vtype * Z)%type.                     (* kind and code of the value *)
 Definition upd := list (str * Z).                          (* node-level overrides {var: value} *)
 Record opT := mkOp { o_name : str; o_eqs : list str; o_vars : list (str * vspec) }.
 Record nodeT := mkNode { n_name : str; n_ops : list (opT * upd) }.          (* NodeTemplate / EdgeTemplate *)
